@@ -1,4 +1,5 @@
 import OhkamiModel.HttpProofs
+import OhkamiModel.HttpSound
 import OhkamiModel.M.HttpObs
 /-! # C02 — property theorems about the model of `Request::read` (OhkamiModel/Http.lean) -/
 namespace C02
@@ -51,5 +52,19 @@ theorem finish_method (method : String) (np : Bytes) (q : Option Bytes) (r6 more
   · cases hf
   · cases hf
   · repeat (first | (cases hf; rfl) | cases hf | split at hf | dsimp only at hf)
+
+/-- **Soundness.**  Whatever first read the parser accepts has the shape of a request —
+`method SP path [? query] SP HTTP/1.1 CRLF (name ": " value CRLF)* CRLF remaining` with a known method, an origin-form UTF-8 path —
+and the request object is exactly what that shape denotes: the method, the path (one trailing `/` stripped), the query, the header
+lines folded in order into the two maps, and as payload the first Content-Length bytes of what follows the head. -/
+theorem parse_sound (first more : Bytes) (p : Parsed) (h : parse first more = .ok p) :
+    ∃ (m path : Bytes) (query : Option Bytes) (hs : List (Bytes × Bytes)) (remaining : Bytes),
+      first = m ++ SP :: (path ++ queryBytes query ++ SP :: (HTTP11 ++ (encodeHeaders hs ++ [CR, LF] ++ remaining))) ∧
+      methodOf m = some p.method ∧ (∀ b ∈ m, b ≠ SP) ∧
+      path.head? = some SLASH ∧ (∀ b ∈ path, b ≠ SP ∧ b ≠ QM) ∧ validUtf8 path = true ∧
+      p.path = (if path.getLast? == some SLASH then path.dropLast else path) ∧
+      p.query = query ∧ (∀ q, query = some q → ∀ b ∈ q, b ≠ SP) ∧
+      (∀ kv ∈ hs, LineOK kv) ∧ (p.std, p.custom) = foldHeaders hs ∧ PayloadOK p.std remaining more p.payload :=
+  Http.parse_sound' first more p h
 
 end C02
